@@ -107,10 +107,15 @@ const ALT_SIZES: [i64; 12] = [0, 1, 1, 2, 2, 3, 3, 4, 5, 6, 1, 2];
 /// third of the symbols keep their original size so that fixed Reshape targets
 /// etc. still fit), fixed dims stay, data is regenerated.
 pub fn alternate_inst(model: &ModelDef, orig: &Inst, seed: u32) -> Inst {
+    alternate_inst_sizes(model, orig, seed, &ALT_SIZES)
+}
+
+/// `alternate_inst` with a caller-supplied table of sizes.
+pub fn alternate_inst_sizes(model: &ModelDef, orig: &Inst, seed: u32, sizes: &[i64]) -> Inst {
     let mut assign = BTreeMap::new();
     for (i, (name, size)) in orig.assign.iter().enumerate() {
         let h = hash32(seed, i as u32);
-        let v = if h % 3 == 0 { *size } else { ALT_SIZES[((h >> 8) % ALT_SIZES.len() as u32) as usize] };
+        let v = if h % 3 == 0 { *size } else { sizes[((h >> 8) % sizes.len() as u32) as usize] };
         assign.insert(name.clone(), v);
     }
     let mut inputs = Vec::new();
@@ -451,6 +456,13 @@ pub fn eval_expr(e: &SymExpr, env: &BTreeMap<String, i64>) -> Option<i64> {
 /// Used only to classify a mismatch of `SymExpr::eval`, which implements
 /// Broadcast as `max` and is therefore wrong for the pair (0, 1).
 pub fn eval_documented(e: &SymExpr, env: &BTreeMap<String, i64>) -> Option<i64> {
+    eval_ref(e, env, false)
+}
+
+/// `floor_div`: evaluate `Div` as flooring division (what the doc comment of
+/// `SymExpr::Div` says) instead of the truncating division `eval` performs.
+pub fn eval_ref(e: &SymExpr, env: &BTreeMap<String, i64>, floor_div: bool) -> Option<i64> {
+    let eval_documented = |e: &SymExpr, env: &BTreeMap<String, i64>| eval_ref(e, env, floor_div);
     let bin = |a: &SymExpr, b: &SymExpr| Some((eval_documented(a, env)?, eval_documented(b, env)?));
     Some(match e {
         SymExpr::Value(v) => *v as i64,
@@ -473,7 +485,11 @@ pub fn eval_documented(e: &SymExpr, env: &BTreeMap<String, i64>) -> Option<i64> 
             if y == 0 {
                 return None;
             }
-            x / y
+            if floor_div {
+                x.div_euclid(y) - if y < 0 && x.rem_euclid(y) != 0 { 1 } else { 0 }
+            } else {
+                x / y
+            }
         }
         SymExpr::DivCeil(a, b) => {
             let (x, y) = bin(a, b)?;
@@ -517,6 +533,12 @@ fn expr_sig(clause: &str, op_name: &str, e: &SymExpr, actual: i64, env: &BTreeMa
     }
     if has_broadcast(e) && eval_documented(e, env) == Some(actual) {
         return "eval:Broadcast:zero-vs-one".to_string();
+    }
+    // `Div` is documented as flooring division but `eval` truncates: they
+    // differ for a negative numerator (e.g. `(in + pad - 1) / stride` for an
+    // empty input)
+    if e.iter().any(|n| matches!(n, SymExpr::Div(..))) && eval_ref(e, env, true) == Some(actual) {
+        return "eval:Div:negative-numerator-truncates".to_string();
     }
     // a size expression that goes negative where the operator produces an
     // empty dimension: the expression lacks the clamp at 0
@@ -612,7 +634,49 @@ pub fn check_inst(f: &GraphFacts, ex: &Exec, inst: &Inst, rep: &mut Report) -> B
                 }
                 None
             };
+            // MaxPool / AveragePool in ceil mode: the operator drops at most one
+            // trailing window that starts beyond the input and its start padding;
+            // inference excludes all of them. They differ when the end padding
+            // makes two or more windows start there. Recognised from the executed
+            // result: its last window starts at or beyond in + pad_start.
+            let pool_special: Option<String> = if op_name == "MaxPool" || op_name == "AveragePool" {
+                let dbg = format!("{:?}", op.operator());
+                let list = |key: &str| -> Option<Vec<usize>> {
+                    let i = dbg.find(key)? + key.len();
+                    let j = dbg[i..].find(']')? + i;
+                    Some(dbg[i..j].split(',').filter_map(|x| x.trim().parse().ok()).collect())
+                };
+                let strides = list("strides: [");
+                let pads = list("padding: Fixed([");
+                let in_shape = op.input_ids().first().copied().flatten().and_then(|i| shape_of(g, ex, &input_shapes, i));
+                match (dbg.contains("ceil_mode: true"), strides, pads, in_shape) {
+                    (true, Some(st), Some(pd), Some(ish)) if ish.len() >= 3 && st.len() == ish.len() - 2 && pd.len() == 2 * st.len() && actual.shape().len() == ish.len() => {
+                        let hit = (0..st.len()).any(|d| {
+                            let out = actual.shape()[2 + d];
+                            out >= 1 && (out - 1) * st[d] >= ish[2 + d] + pd[d]
+                        });
+                        // empty input and no start padding: the bound (in + pad_start - 1) / stride
+                        // has the numerator -1 (folded with truncating division for fixed sizes)
+                        let empty = (0..st.len()).any(|d| ish[2 + d] + pd[d] == 0 && actual.shape()[2 + d] == 0);
+                        if hit {
+                            Some("shape:Pool:ceil_mode-window-entirely-in-end-padding".to_string())
+                        } else if empty {
+                            Some("eval:Div:negative-numerator-truncates".to_string())
+                        } else {
+                            None
+                        }
+                    }
+                    _ => None,
+                }
+            } else {
+                None
+            };
             let shape_sig = |clause: &str| -> String {
+                if let Some(s) = &pool_special {
+                    if clause != "rank" {
+                        return s.clone();
+                    }
+                }
                 if let Some(s) = value_sig("shape", "") {
                     if s.starts_with("shape:") {
                         return s;
@@ -865,7 +929,7 @@ pub fn check_inst(f: &GraphFacts, ex: &Exec, inst: &Inst, rep: &mut Report) -> B
                                 if let Some(v) = eval_expr(&e, &env) {
                                     if v != *a as i64 {
                                         local.push(Violation {
-                                            sig: expr_sig("dim-expr", &op_name, &e, *a as i64, &env, if op_name == "Reshape" { Some(shape_sig("dim-expr")).filter(|s| s.starts_with("shape:")) } else { None }),
+                                            sig: expr_sig("dim-expr", &op_name, &e, *a as i64, &env, if op_name == "Reshape" || pool_special.is_some() { Some(shape_sig("dim-expr")).filter(|s| s.starts_with("shape:") || s.starts_with("eval:")) } else { None }),
                                             detail: ctx(format!("dim {k} inferred as `{e}` which evaluates to {v}, but execution produced shape {ashape:?}")),
                                         });
                                         break;
